@@ -138,7 +138,11 @@ func runH264RT(c *Case, disable, avc bool, calls []h264Call) {
 		all := make([][][]byte, 0, len(calls))
 		for _, cl := range calls {
 			if tx == nil {
-				all = append(all, pay.Payload(uint16(cl.mtu), cl.buffer()))
+				frags := pay.Payload(uint16(cl.mtu), cl.buffer())
+				// the sender appends its trailer (auth tag, padding) to every payload in place: the
+				// spare capacity of what was returned is the caller's to use
+				scribbleSpare(frags...)
+				all = append(all, frags)
 				continue
 			}
 			// the caller's ONE input buffer: this call's bytes are read into it, the packets that
@@ -149,6 +153,7 @@ func runH264RT(c *Case, disable, avc bool, calls []h264Call) {
 			}
 			in := append(tx[:0], b...)
 			frags := pay.Payload(uint16(cl.mtu), in)
+			scribbleSpare(frags...)
 			sent := make([][]byte, len(frags))
 			for i, f := range frags {
 				sent[i] = append([]byte{}, f...)
